@@ -217,11 +217,20 @@ VOP(rl_init)
 	NewListener();
 }
 
-// rl_relay sec=<key|-> id=N : SyncRelayMessage of a locally generated event
+// rl_relay sec=<key|-> id=N [pad=R<n>x<hh>] : SyncRelayMessage of a locally generated event
 VOP(rl_relay)
 {
 	for (int i = 1; i <= NEP; i++) if (l_Cl[i]) { Poll(); l_Cl[i]->m_OutgoingMessagesQueue.clear(); }
 	Dictionary::Ptr params = new Dictionary({ { "id", (double)a.num("id") } });
+	// pad=R<n>x<hh>: a large payload (think: plugin output) - a member "pad" of n bytes hh
+	std::string pad = a.str("pad", "-");
+	if (pad != "-") {
+		auto xp = pad.find('x');
+		if (pad.size() < 4 || pad[0] != 'R' || xp == std::string::npos) throw std::runtime_error("bad pad");
+		size_t n = std::stoul(pad.substr(1, xp - 1));
+		char c = (char)std::stoul(pad.substr(xp + 1), nullptr, 16);
+		params->Set("pad", String(std::string(n, c)));
+	}
 	Dictionary::Ptr message = new Dictionary({ { "jsonrpc", "2.0" }, { "method", "vf::ev" }, { "params", params } });
 	size_t before = l_L->m_LogMessageCount;
 	bool rotatedBefore = false;
